@@ -300,7 +300,24 @@ func cmdCheck(args []string) int {
 		"T-AX: byte-string order/prefix/concatenation axioms of the SMT prelude (engine/cmd/kvc/smt.go)",
 	}
 	for _, k := range sortedKeys(trusted) {
+		if strings.HasPrefix(k, "axiom:") {
+			if ax := sp.Axioms[strings.TrimPrefix(k, "axiom:")]; ax != nil {
+				tb = append(tb, "assumed "+k+" — "+ax.Body.String())
+				continue
+			}
+		}
 		tb = append(tb, "assumed: "+k)
+	}
+	usedIfaces := map[string]bool{}
+	for _, o := range outs {
+		if o.Gen != nil {
+			for k := range o.Gen.ifaceUse {
+				usedIfaces[k] = true
+			}
+		}
+	}
+	for _, k := range sortedKeys(usedIfaces) {
+		tb = append(tb, "assumed interface / function-type contract at call sites: "+k)
 	}
 	for _, a := range assumedContracts {
 		tb = append(tb, "assumed contract (body not verified): "+a)
